@@ -8,7 +8,7 @@ in text order; string arguments give the same answer as parsed arguments.
 """
 import random
 
-from core import imp, run_model, enc_table, enc_str, make_licensing, dec_str, enc_atom, enc_expr, enc_opt, build_expr
+from core import imp, run_model, enc_table, enc_str, make_licensing, dec_str, enc_atom, enc_expr, enc_opt, build_expr, REPRESENTATIONS
 import gen
 import parsing
 import algebra
@@ -95,6 +95,12 @@ def check_case(L, T, text, tree, parsed):
         if obs != exp and not err:
             bad = [k for k in exp if obs[k] != exp[k]]
             err = '%s argument: listing %s = %r, expected %r' % (what, bad[0], obs[bad[0]], exp[bad[0]])
+    for like in REPRESENTATIONS:
+        # the same tree handed over as objects whose licenses are wrapped user objects, or a mixture of both kinds
+        lobs = observe(L, build_expr(tree, like=like))
+        if not err and lobs != exp:
+            bad = [k for k in exp if lobs[k] != exp[k]]
+            err = 'argument over wrapped user objects (representation %r): listing %s = %r, expected %r' % (like, bad[0], lobs[bad[0]], exp[bad[0]])
     if not err and tree[0] != 0:
         # the same licenses in another order, asked right afterwards on the same Licensing
         rev = [tree[0], list(reversed(tree[1]))]
